@@ -94,6 +94,8 @@ impl Scenario for WriteReadBack {
             "soft_max_rows": *rng.pick(&[1u64, 3, 50_000_000]),
             "min_parallel_files": *rng.pick(&[1u64, 1, 2, 4]),
             "single_file": rng.chance(1, 4),
+            // four more column types derived from id: DOUBLE, BOOLEAN (with NULLs), DATE, DECIMAL(10,2)
+            "extra_types": rng.chance(1, 2),
             // small object-store writer buffers turn every upload into a multipart upload of many parts
             "writer_buffer": *rng.pick(&[10_485_760u64, 16, 64, 300, 2000]),
             "store": {
@@ -135,6 +137,7 @@ async fn run(case: Value, write_faults: bool) -> Outcome {
     if parts.is_empty() || parts.len() > 4 {
         return Outcome::Invalid;
     }
+    let extra = case["extra_types"].as_bool().unwrap_or(false);
     let mut expected: Vec<Cells> = vec![];
     let mut mem_parts: Vec<Vec<RecordBatch>> = vec![];
     for p in parts {
@@ -159,7 +162,19 @@ async fn run(case: Value, write_faults: bool) -> Outcome {
                     ("csv", Some("")) => None,
                     (_, x) => x.map(|y| y.to_string()),
                 };
-                expected.push(vec![Some(id.to_string()), s_cell, Some(a.to_string()), Some(b2.to_string())]);
+                let mut row = vec![Some(id.to_string()), s_cell, Some(a.to_string()), Some(b2.to_string())];
+                if extra {
+                    if !(0..20).contains(&id) && !(0..10_000).contains(&id) {
+                        return Outcome::Invalid;
+                    }
+                    // f = id * 0.25, b = id % 3 = 0 (NULL when id % 5 = 0), d = 1970-01-01 + (id % 28) days, dc = id.00
+                    let f = id as f64 * 0.25;
+                    row.push(Some(if f.fract() == 0.0 { format!("{f:.1}") } else { format!("{f}") }));
+                    row.push(if id % 5 == 0 { None } else { Some((id % 3 == 0).to_string()) });
+                    row.push(Some(format!("1970-01-{:02}", id % 28 + 1)));
+                    row.push(Some(format!("{id}.00")));
+                }
+                expected.push(row);
             }
             if rows.is_empty() {
                 continue;
@@ -218,8 +233,20 @@ async fn run(case: Value, write_faults: bool) -> Outcome {
     let csv_opts = if format == "csv" { " OPTIONS ('format.has_header' 'true')" } else { "" };
     let part_clause = if part_cols.is_empty() { String::new() } else { format!(" PARTITIONED BY ({})", part_cols.join(", ")) };
     // data columns first, partition columns last (the order a listing table exposes)
-    let data_cols: Vec<&str> = ["id", "s", "p1", "p2"].into_iter().filter(|c| !part_cols.contains(c)).collect();
-    let select_list = data_cols.iter().chain(part_cols.iter()).copied().collect::<Vec<_>>().join(", ");
+    let mut data_cols: Vec<&str> = ["id", "s", "p1", "p2"].into_iter().filter(|c| !part_cols.contains(c)).collect();
+    if extra {
+        data_cols.extend(["f", "b", "d", "dc"]);
+    }
+    let select_expr = |c: &str| -> String {
+        match c {
+            "f" => "CAST(id AS DOUBLE) * 0.25 AS f".to_string(),
+            "b" => "CASE WHEN id % 5 = 0 THEN NULL ELSE id % 3 = 0 END AS b".to_string(),
+            "d" => "CAST(CAST(id % 28 AS INT) AS DATE) AS d".to_string(),
+            "dc" => "CAST(id AS DECIMAL(10,2)) AS dc".to_string(),
+            other => other.to_string(),
+        }
+    };
+    let select_list = data_cols.iter().chain(part_cols.iter()).map(|c| select_expr(c)).collect::<Vec<_>>().join(", ");
     let reported: Option<u64>;
     if via_insert {
         let ddl = format!("CREATE EXTERNAL TABLE sink ({}) STORED AS {stored}{part_clause} LOCATION 'sim://bucket/out/'{csv_opts}", {
@@ -280,7 +307,7 @@ async fn run(case: Value, write_faults: bool) -> Outcome {
     if let Err(e) = ctx.sql(&ddl).await {
         return violation("unexpected-error", format!("{ddl}: {e}"));
     }
-    let ex = sqlsim::execute_sql(&ctx, "SELECT id, s, p1, p2 FROM back", Consume::Stream, None).await;
+    let ex = sqlsim::execute_sql(&ctx, if extra { "SELECT id, s, p1, p2, f, b, d, dc FROM back" } else { "SELECT id, s, p1, p2 FROM back" }, Consume::Stream, None).await;
     match ex.result {
         Err(e) => return violation("read-back-error", format!("reading the written {format} files back failed: {}", sqlsim::error_text(&e))),
         Ok(rows) => {
@@ -336,6 +363,10 @@ fn col_def(c: &str) -> String {
         "id" => "id BIGINT NOT NULL".to_string(),
         "s" => "s VARCHAR".to_string(),
         "p1" => "p1 VARCHAR NOT NULL".to_string(),
+        "f" => "f DOUBLE".to_string(),
+        "b" => "b BOOLEAN".to_string(),
+        "d" => "d DATE".to_string(),
+        "dc" => "dc DECIMAL(10,2)".to_string(),
         _ => "p2 BIGINT NOT NULL".to_string(),
     }
 }
@@ -347,7 +378,7 @@ pub fn check() -> Check {
         scenarios: vec![Box::new(WriteReadBack)],
         cases_quick: 6_000,
         cases_thorough: 150_000,
-        rule: "runs: a generated table (1-3 partitions, 0-3 batches, 0-6 rows; strings with separators, quotes, tabs, unicode, leading/trailing blanks, line breaks (not for CSV), NULLs; partition values containing space / = % + ? : & # and non-ASCII) written with COPY ... TO or INSERT INTO a listing table as Parquet, CSV, NDJSON or Arrow, unpartitioned (single file or directory) or hive-partitioned by one or two columns, with soft_max_rows_per_output_file 1/3/unlimited, minimum_parallel_output_files 1-4, object-store writer buffers of 16 B - 10 MiB (small ones force multipart uploads of many parts) and 1-4 target partitions, against the simulated object store (request latency 0/3/20 ms, multipart parts with individual latencies so that they complete out of order, chunked/Pending reads) under a seeded task schedule; the reported count must equal the rows written and reading the location back with the written schema must give exactly the written multiset. distinct = distinct traces",
+        rule: "runs: a generated table (1-3 partitions, 0-3 batches, 0-6 rows; strings with separators, quotes, tabs, unicode, leading/trailing blanks, line breaks (not for CSV), NULLs; in half of the runs four more columns of type DOUBLE, BOOLEAN (with NULLs), DATE and DECIMAL(10,2); partition values containing space / = % + ? : & # and non-ASCII) written with COPY ... TO or INSERT INTO a listing table as Parquet, CSV, NDJSON or Arrow, unpartitioned (single file or directory) or hive-partitioned by one or two columns, with soft_max_rows_per_output_file 1/3/unlimited, minimum_parallel_output_files 1-4, object-store writer buffers of 16 B - 10 MiB (small ones force multipart uploads of many parts) and 1-4 target partitions, against the simulated object store (request latency 0/3/20 ms, multipart parts with individual latencies so that they complete out of order, chunked/Pending reads) under a seeded task schedule; the reported count must equal the rows written and reading the location back with the written schema must give exactly the written multiset. distinct = distinct traces",
         assumptions: vec!["samples the format/option matrix; the claim is about completion, assembly and path encoding under schedules and storage latency", "CSV: NULL and the empty string are identified; no line breaks inside CSV values", "empty and NULL partition values are not generated"],
         components: json!({
             "real": ["datasource/src/write (demux, orchestration)", "FileSinkConfig / DataSinkExec", "parquet, csv, json, arrow sinks and readers", "ListingTable + hive partition path encoding/decoding", "object_store BufWriter / multipart"],
